@@ -20,14 +20,19 @@ class Leaf16(Leaf):
     `alias_getall`: the bulk accessor hands out the leaf's own storage (list, ndarray or tensor) and the per-sample
     accessor reads from that storage, so an in-place edit by a wrapper changes the leaf's labels observably."""
 
-    def __init__(self, n, classes, n_classes, getall_kind="list", alias_getall=False, item_kind="int"):
+    def __init__(self, n, classes, n_classes, getall_kind="list", alias_getall=False, item_kind="int", store_dtype="int64"):
         super().__init__(n, tag="L", classes=classes, n_classes=n_classes, getall_kind=getall_kind, alias_getall=alias_getall)
         self.item_kind = item_kind
+        self.store_dtype = store_dtype  # dtype of ndarray / tensor bulk results (uint8 = CIFAR / MNIST style label storage)
+        assert store_dtype != "uint8" or all(0 <= c < 256 for c in self.classes)
         self._store = None
-        if alias_getall and getall_kind == "ndarray":
-            self._store = np.array(self.classes, dtype=np.int64)
-        elif alias_getall and getall_kind == "tensor":
-            self._store = torch.tensor(self.classes, dtype=torch.long)
+        if alias_getall and getall_kind in ("ndarray", "tensor"):
+            self._store = self._as_storage()
+
+    def _as_storage(self):
+        if self.getall_kind == "ndarray":
+            return np.array(self.classes, dtype=getattr(np, self.store_dtype))
+        return torch.tensor(self.classes, dtype=getattr(torch, self.store_dtype))
 
     def labels_now(self):
         return list(self.classes) if self._store is None else [int(v) for v in self._store.tolist()]
@@ -35,6 +40,8 @@ class Leaf16(Leaf):
     def getall_class(self):
         if self._store is not None:
             return self._store
+        if self.getall_kind in ("ndarray", "tensor"):
+            return self._as_storage()
         return super().getall_class()
 
     def getitem_class(self, idx, ctx=None):
@@ -149,3 +156,13 @@ def topk_candidates(row, k):
     srt = sorted(row, reverse=True)
     kth = srt[k - 1]
     return {j for j, v in enumerate(row) if v >= kth}
+
+
+class MixLeaf(Leaf):
+    """python-int labelled dataset with tensor x, for the library's own in-place consumer of one-hot vectors (KDMixWrapper)"""
+
+    def __init__(self, classes, n_classes):
+        super().__init__(len(classes), tag="M", classes=classes, n_classes=n_classes)
+
+    def getitem_x(self, idx, ctx=None):
+        return torch.full(size=(2, 2), fill_value=float(self._norm(idx)))
